@@ -452,7 +452,6 @@ pub fn worker_loop(sc: &dyn Scenario, seed: u64, tier: Tier, w: u64, n: u64, car
     let mut idx = w;
     let mut digest: u64 = 0xcbf2_9ce4_8422_2325;
     let slow_ms: Option<u64> = std::env::var("SCALESIM_SLOW_MS").ok().and_then(|s| s.parse().ok());
-    use std::io::Write;
     while idx < total {
         if let Some(o) = only {
             if idx != o {
@@ -467,10 +466,35 @@ pub fn worker_loop(sc: &dyn Scenario, seed: u64, tier: Tier, w: u64, n: u64, car
             continue;
         }
         if careful {
-            let so = std::io::stdout();
-            let mut l = so.lock();
-            let _ = writeln!(l, "B {}", idx);
-            let _ = l.flush();
+            // allocation-free marker (the heap history must stay identical to the normal run, so
+            // that crashes which depend on heap layout reproduce): "B <idx>\n" via write(2)
+            let mut buf = [0u8; 32];
+            buf[0] = b'B';
+            buf[1] = b' ';
+            let mut digits = [0u8; 20];
+            let mut k = 0;
+            let mut x = idx;
+            loop {
+                digits[k] = b'0' + (x % 10) as u8;
+                k += 1;
+                x /= 10;
+                if x == 0 {
+                    break;
+                }
+            }
+            let mut pos = 2;
+            while k > 0 {
+                k -= 1;
+                buf[pos] = digits[k];
+                pos += 1;
+            }
+            buf[pos] = b'\n';
+            extern "C" {
+                fn write(fd: i32, buf: *const u8, n: usize) -> isize;
+            }
+            unsafe {
+                write(1, buf.as_ptr(), pos + 1);
+            }
         }
         out.stats.evaluations += 1;
         let steps_before = out.stats.steps;
